@@ -206,7 +206,8 @@ class ConciliationMonitor(Monitor):
                                      f"{[(c['application_name'], c['process_name'], c['identifiers']) for c in conflicts]}",
                                      case=self.run.describe())
         elif old == 'CONCILIATION':
-            self.close_round(inst)
+            # leaving for ELECTION (a new instance, a lost Master...) aborts the jobs: the round is not completed
+            self.close_round(inst, evaluate=(state == 'OPERATION'))
             if state == 'OPERATION' and payload.get('master_identifier') == inst.identifier:
                 # the Master goes back to OPERATION only when no conflict remains in its view
                 try:
@@ -221,13 +222,16 @@ class ConciliationMonitor(Monitor):
                                  f"{[(c['application_name'], c['process_name'], c['identifiers']) for c in managed]}",
                                  case=self.run.describe())
 
-    def close_round(self, inst):
-        """ The round ends (new round, or CONCILIATION left): every copy the strategy stops has been asked to. """
+    def close_round(self, inst, evaluate=True):
+        """ The round ends (new round, or back to OPERATION): every copy the strategy stops has been asked to. """
         w = self.run.world
         record = self.current_round(inst.nick, inst.inc)
         if record is None:
             return
         record['closed'] = True
+        if not evaluate:
+            self.count('rounds_aborted')
+            return
         tr = self.tracker
         for namespec, copies in record['conflicts'].items():
             must, _ = self.expected(record, namespec)
